@@ -314,7 +314,9 @@ void emitStmts(Line & L, const File & f) {
 }
 
 // ASan aborts on an allocation it cannot serve instead of letting `new` throw (a property of the sanitizer
-// run-time, not of the library), so texts declaring sizes with 4+ digits are not sent to the library.
+// run-time, not of the library), so texts declaring sizes with 4+ digits are not sent to the library; nor are
+// negative declared sizes (stoul wraps them to ~2^64: the region of the known finding C18-size-extent-overflow,
+// which is exercised by the fixed witness cases 0 and 1 instead of at random case indices).
 bool hugeSizes(const std::string & text) {
     std::istringstream is(text); std::string l;
     while (std::getline(is, l)) {
@@ -322,7 +324,11 @@ bool hugeSizes(const std::string & text) {
         if (b == std::string::npos) continue;
         if (l.compare(b, 6, "states") && l.compare(b, 7, "actions") && l.compare(b, 12, "observations")) continue;
         int run = 0;
-        for (char c : l) { if (c >= '0' && c <= '9') { if (++run >= 4) return true; } else run = 0; }
+        for (size_t i = 0; i < l.size(); ++i) {
+            char c = l[i];
+            if (c == '-' && i + 1 < l.size() && l[i + 1] >= '0' && l[i + 1] <= '9') return true;
+            if (c >= '0' && c <= '9') { if (++run >= 4) return true; } else run = 0;
+        }
     }
     return false;
 }
